@@ -33,7 +33,8 @@ def as_model_method(m):
 def render_method(m, fname):
     k = m["id"]
     rec = "recurse" if m.get("rec", "recurse") == "recurse" else fname
-    head = f"def gm{k}(x: GA{k}):\n    _LOG.append({k})\n"
+    # every method is called `f`, as in real code (`@f.variant\ndef f(...)`): functions of a graph share their __name__
+    head = f"def f(x: GA{k}):\n    _LOG.append({k})\n"
     if m["kind"] == "leaf":
         return head + f"    return ('leaf', {k})\n"
     if m["kind"] == "walk_list":
@@ -67,7 +68,7 @@ class FnGraph:
         exec(compile(src, fname, "exec"), glb, glb)
         self.files.append(fname)
         self.glbs.append(glb)
-        fn = glb[f"gm{m['id']}"]
+        fn = glb["f"]
         self.fns[(node_id, m["id"])] = (fn, glb, self_name)
         return fn
 
